@@ -270,7 +270,7 @@ theorem filterTest_anyName_none {α} (root : PTree) (env : NsEnv) (f : α → Li
     simp only [List.map_cons, filterTest, nodeTest_anyName_none, ih, List.filter_cons]
     cases tagPath root (f a) <;> simp
 
-theorem evalStep_single (root : PTree) (env : NsEnv) (s : Step) (n m : XNode)
+theorem evalStep_single_lp (root : PTree) (env : NsEnv) (s : Step) (n m : XNode)
     (h : evalStepAt root env s n = .ok [m]) : evalStep root env s [] [n] = .ok [m] := by
   simp [evalStep, h, addNew]
 
@@ -302,7 +302,7 @@ theorem evalSteps_tagIdxs (root : PTree) (env : NsEnv) (pre rest : List Nat)
   | nil => simp [tagIdxs, evalSteps]
   | cons i rest ih =>
     have h' : tagPath root ((pre ++ [i]) ++ rest) = true := by simpa using h
-    have hstep := evalStep_single root env _ _ _
+    have hstep := evalStep_single_lp root env _ _ _
       (evalStepAt_idxStep root env pre i (tagPath_prefix root _ _ h'))
     simp only [tagIdxs, List.map_cons, evalSteps, hstep]
     rw [ih (pre ++ [i]) h']
@@ -311,7 +311,7 @@ theorem evalSteps_tagIdxs (root : PTree) (env : NsEnv) (pre rest : List Nat)
 /-- the leading `/*` from the document node selects the root element -/
 theorem evalStep_root (root : PTree) (env : NsEnv) (h : tagPath root [] = true) :
     evalStep root env { axis := "child", test := .anyName none, preds := [] } [] [.doc] = .ok [.at []] := by
-  apply evalStep_single
+  apply evalStep_single_lp
   have hax : axisNodes root "child" .doc = .ok [.at []] := rfl
   simp [evalStepAt, hax, filterTest, nodeTest_anyName_none, h, applyPreds]
 
